@@ -210,6 +210,9 @@ def oracle(case, src, out, S, O):
     return bad
 
 
+_HIST_R = {}
+
+
 def reblock(src, out, history=None):
     """runs the implementation on a recording file object; returns (exception or None, list of (offset, length) reads).
     history: what the SAME converter object is asked before the conversion (the result must not depend on it):
@@ -427,7 +430,10 @@ for case_no, case in enumerate(cases):
         R.notes.append(f'source {inp} is not a 2-bit default-layout 3D file: skipped')
         continue
     n_il_, n_xl_, ns_ = case['shape']
-    history = [None, 'header-then-grid', 'query-last', 'gen-header', 'export', None, 'grid-then-header'][case_no % 7]
+    # the history is dealt round-robin PER ROUTE of the source (NumPy-sourced files store no SEG-Y format code: the export
+    # substitutes one), NumPy sources starting with 'export'
+    _HIST_R[case['route']] = _HIST_R.get(case['route'], 3 if case['route'] == 'numpy' else -1) + 1
+    history = [None, 'header-then-grid', 'query-last', 'gen-header', 'export', None, 'grid-then-header'][_HIST_R[case['route']] % 7]
     if history == 'export' and n_il_ * n_xl_ * ns_ > 60000:
         history = 'query-last'
     if history:
